@@ -302,6 +302,23 @@ pub fn run(tier: &str) -> Report {
                     }
                 }
             }
+            // nested labelled blocks: the innermost explicit label decides (it replaces, not intersects, the enclosing one);
+            // a statement without a label inside a labelled block takes the block's label.  Inner labels include the
+            // spellings of the full mask ("*", all digits, "ENHL" when bits 4-7 are on by default)
+            if n <= 4 {
+                let sw: Vec<Option<i32>> = (0..n).map(|i| if i == 1 && n > 2 { None } else { Some(10 + i as i32) }).collect();
+                let txt = format!("({})", sw.iter().map(|x| x.map(|v| v.to_string()).unwrap_or_default()).collect::<Vec<_>>().join(":"));
+                let inner_labels: [&'static str; 9] = ["*", "01234567", "ENHL", "E", "EN", "L", "NH", "*-4", "EN-7"];
+                for outer in labels.iter() {
+                    work.push(Work::B(BCase { body: format!("{{ {{\"{outer}\"}}: {{ mS({txt}); }} }}"), n, cases: vec![sw.clone()], label: outer, cfg_idx: ci, mismatched: false }));
+                    work.push(Work::B(BCase { body: format!("{{ {{\"{outer}\"}}: {{ {{ mS({txt}); }} }} }}"), n, cases: vec![sw.clone()], label: outer, cfg_idx: ci, mismatched: false }));
+                    for inner in inner_labels {
+                        work.push(Work::B(BCase { body: format!("{{ {{\"{outer}\"}}: {{ {{\"{inner}\"}}: mS({txt}); }} }}"), n, cases: vec![sw.clone()], label: inner, cfg_idx: ci, mismatched: false }));
+                        work.push(Work::B(BCase { body: format!("{{ {{\"{outer}\"}}: {{ {{\"{inner}\"}}: {{ mS({txt}); }} }} }}"), n, cases: vec![sw.clone()], label: inner, cfg_idx: ci, mismatched: false }));
+                        work.push(Work::B(BCase { body: format!("{{ {{\"{inner}\"}}: {{ {{\"{outer}\"}}: {{ {{\"{inner}\"}}: mS({txt}); }} }} }}"), n, cases: vec![sw.clone()], label: inner, cfg_idx: ci, mismatched: false }));
+                    }
+                }
+            }
             // mismatched lengths must be an error
             let body = format!("{{ mSS(({}), (1:2:3:4:5:6:7:8:9)); }}", (0..n).map(|i| i.to_string()).collect::<Vec<_>>().join(":"));
             work.push(Work::B(BCase { body, n, cases: vec![], label: "*", cfg_idx: ci, mismatched: true }));
@@ -349,7 +366,7 @@ pub fn run(tier: &str) -> Report {
         for f in failures { if seen_sigs.insert(f.signature.clone()) || rep.failures.len() < 200 { rep.failures.push(f); } }
     }
     rep.exhaustive = true;
-    rep.bound_completed = format!("(a) all 256 masks x {} flag configurations ({} schemes x default-on subsets{}); (b) {} switch statements: lengths 2-8, every hole pattern{}, 12 labels, {} default-on sets, 1-2 switches per statement{}, mismatched lengths; (c) {} runs of 2..{} instructions over {} masks x same/different values x recognition on/off", n_a, 8, if thorough { ": all 256 for every scheme" } else { ": all 256 for the ENHL scheme, 12 elsewhere" }, n_b, if thorough { "" } else { " (quick: a subset for n>5)" }, b_cfg_idx.len(), if extra { " (second switch with every independent hole pattern for n<=5 under 2 restricting labels)" } else { "" }, n_c, max_run, mask_set.len());
+    rep.bound_completed = format!("(a) all 256 masks x {} flag configurations ({} schemes x default-on subsets{}); (b) {} switch statements: lengths 2-8, every hole pattern{}, 12 labels, {} default-on sets, 1-2 switches per statement{}, nested labelled blocks (12 outer x 9 inner labels, 1-3 levels), mismatched lengths; (c) {} runs of 2..{} instructions over {} masks x same/different values x recognition on/off", n_a, 8, if thorough { ": all 256 for every scheme" } else { ": all 256 for the ENHL scheme, 12 elsewhere" }, n_b, if thorough { "" } else { " (quick: a subset for n>5)" }, b_cfg_idx.len(), if extra { " (second switch with every independent hole pattern for n<=5 under 2 restricting labels)" } else { "" }, n_c, max_run, mask_set.len());
     rep.rule = "full products as listed; non-trivial = the flag set has a default-on or renamed bit (a), the switch has a hole or the label masks out a case (b), every run (c)".into();
     rep.assumptions = vec!["M8 (harness model of the label grammar: defaults, '-'/'+', '*', names) and of per-difficulty case selection".into(), "flag definitions that give one name to two bits can only be satisfied by rejection".into()];
     rep.explanation = "(a) hand-built instructions with every mask are raised to text, each printed label is parsed by M8 and the text is recompiled; (b) switch statements are lowered and, for each difficulty, exactly one emitted copy must apply with that difficulty's values and the label's aux bits; (c) hand-built instruction runs are raised with recognition on/off and recompiled to identical instructions".into();
